@@ -10,7 +10,7 @@ from props import _hist as H
 PID = "C05"
 RULE = (
     "explicit-state BFS over update histories with a lock-step twin: roots = fabric(6) x "
-    "dislocation-type regime(2) x all points within <=1 deviation of the default over (texture(6, one an int64 array), "
+    "dislocation-type regime(2) x all points within <=1 deviation of the default over (texture(8: one an int64 array, one in Fortran order, one a transposed view), "
     "volumes(3, one an int64 array), n_grains(5: 5,2,3,8,1), parameter set {default, M*=200 & chi=0.9, chi=0, M*=0}); EVERY k in "
     "{1e-16,1e-15,1e-12,1e-8,1e-4,1e-2,10,1e3}; ALL sequences to depth 2 (quick) / 3 (thorough) over "
     "the 12 update letters (6 flows incl. time- and position-dependent x 2 strain increments) and one interval run backwards in time, plus "
